@@ -302,8 +302,9 @@ def addTables (env : Env) (d : Disk) (h : Handle) (ts : List Table) : Disk × Ha
         | (d', .stale _) => (d', h, some .missingFile)   -- unreachable without interleaving
         | (d', .fail e) => (d', h, some e)
 
-/-- the table file a conjoin of `ts` writes: every chunk once -/
-def conjoinedTable (ts : List Table) : Table := ts.flatten.eraseDups
+/-- the table file a conjoin of `ts` writes: the concatenation (a conjoin copies the records and merges the indexes
+without dropping duplicates, so its chunk count — and hence its name — differs from a table holding each chunk once) -/
+def conjoinedTable (ts : List Table) : Table := ts.flatten
 
 /-- the manifest a conjoin writes on top of `cur`: same root, conjoinees replaced by the conjoined table -/
 def conjoinContents (conjoinees : List Table) (c : Table) (cur : Contents) : Contents :=
